@@ -267,6 +267,7 @@ SWEEP_TOKENS = ['""', "''", '"7"', "'0.5'", '"1e3"', '"x"', "0", "7", "00", "0.0
                 ":", "(", ")", "( )", "( 1 )", "( x )", "{", "}", "{ }", "==", "!=", "<", ">=", "weighted", "weighted 1", "return", "else", "else if", "if", "def",
                 "salt", "splitters", "/**/", "/* */", "//", "// x\n", ";", ".", "..", "\\", "\n", "\t", "\x00",
                 # an operator with its operand (chained comparisons are not in the grammar), a second clause
+                "&&", "||", "&", "|", "!", "<>", "=>", "=<", "->", ":=", "++", "**", "<<", "~", "^", "?", "===", "!==", "=", "&& x == 1", "|| x == 1", "xor", "AND", "OR", "NOT",
                 "< 65", "== 18", '!= "FR"', "in ( 1 )", ">= x", "not in ( 1 , 2 )", "and", "or x", ", 1", ': "s"', 'weighted 1 , "Z"']
 
 
